@@ -1,6 +1,6 @@
 //! C15 — written expressions decode to the same operations, branches and references.
 //!
-//! Implementation side of the `c15-expr` request (same canonical text as `lean/Gimli/Drv/C15.lean`):
+//! Implementation side of the `c15-<place>` requests (same canonical text as `lean/Gimli/Drv/C15.lean`):
 //! the abstract builder-call list is replayed through `gimli::write::Expression`, the expression is
 //! placed in a DIE attribute / a location list / a CFI instruction of real units, everything is
 //! written with `Dwarf::write` / `FrameTable::write_*`, and the reply is the length prefix found in
@@ -791,10 +791,15 @@ fn needs_units(ops: &[AOp]) -> bool {
     })
 }
 
-pub fn handle(op: &str, a: &[&str]) -> Option<String> {
-    if op != "c15-expr" || a.len() != 7 {
+pub fn handle(op: &str, a0: &[&str]) -> Option<String> {
+    // `c15-<place>` with the place's `:` written as `-` (so that the evidence histogram and the
+    // failure signatures are per place)
+    let place_tok = op.strip_prefix("c15-")?.replacen('-', ":", 1);
+    if a0.len() != 6 {
         return None;
     }
+    let mut a: Vec<&str> = vec![place_tok.as_str()];
+    a.extend_from_slice(a0);
     let place = parse_place(a[0])?;
     let e = match a[1] {
         "le" => RunTimeEndian::Little,
